@@ -27,11 +27,11 @@ type h14Flags struct {
 var h14FlagSets = []h14Flags{
 	{nil, ".config", ".fullname", ".file", "", "*"},
 	{[]string{"-row", ".name", "-ignore", ".fullname"}, ".config", ".name", ".file", ".fullname", "*"},
-	{[]string{"-table", ".unit", "-ignore", ".config"}, ".unit", ".fullname", ".file", ".config", "*"},
+	{[]string{"-table", "a", "-ignore", ".config"}, "a", ".fullname", ".file", ".config", "*"},
 	{[]string{"-col", "a", "-ignore", "b"}, ".config", ".fullname", "a", "b", "*"},
 	{[]string{"-filter", ".unit:ns/op", "-row", ".name,/s"}, ".config", ".name,/s", ".file", "", ".unit:ns/op"},
 	{[]string{"-table", "a", "-row", ".name", "-ignore", "/s,b"}, "a", ".name", ".file", "/s,b", "*"},
-	{[]string{"-ignore", ".fullname,.config", "-row", ".name", "-table", ".unit"}, ".unit", ".name", ".file", ".fullname,.config", "*"},
+	{[]string{"-ignore", ".fullname,b", "-row", ".name", "-table", "a"}, "a", ".name", ".file", ".fullname,b", "*"},
 }
 
 func h14Pick(name string, opts string) byte {
@@ -131,7 +131,7 @@ func H14Main() {
 		vndAssert(!strings.Contains(w, ".fullname"), "no-warning-about-an-ignored-key")
 	}
 	if ignored(".config") {
-		vndAssert(!strings.Contains(w, "vary in a") && !strings.Contains(w, "vary in b") && !strings.Contains(w, ", b"), "no-warning-about-an-ignored-key")
+		vndAssert(!strings.Contains(w, "vary in b") && !strings.Contains(w, ", b"), "no-warning-about-an-ignored-key")
 	}
 	if ignored("b") {
 		vndAssert(!strings.Contains(w, "vary in b"), "no-warning-about-an-ignored-key")
